@@ -68,3 +68,79 @@ def harness_cases(mode, seed, n, idbase):
 
 def evaluate(prefix, recs, shard=400):
     return eval_shards(prefix, HEADER, [case_term(r) for r in recs], "fcase", EVALS, shard=shard)
+
+
+# ---- extracted evaluator (ExtrOcamlBasic only): the same `verdict` the case files evaluate, run at volume ----
+EXTRACT = os.path.join(COQ, "extract")
+
+
+def build_extracted():
+    """Re-extract FormulaCheck's verdict from the current model and compile the line driver."""
+    for f in ("formula_model.ml", "formula_model.mli", "c05_driver", "Extract.vo"):
+        try:
+            os.remove(os.path.join(EXTRACT, f))
+        except OSError:
+            pass
+    rc, out, _ = make(["extract/Extract.vo"])
+    if rc != 0 or not os.path.exists(os.path.join(EXTRACT, "formula_model.ml")):
+        return False, out[-2000:]
+    rc, out, _ = sh(["ocamlfind", "ocamlopt", "-O2", "formula_model.mli", "formula_model.ml", "driver.ml", "-o", "c05_driver"],
+                    cwd=EXTRACT, timeout=300)
+    return rc == 0, out[-2000:]
+
+
+def decode_line(line):
+    parts = line.split("|")
+    s = "".join(chr(int(x)) for x in parts[0].split(",") if x)
+
+    def dec(o):
+        if o == "P":
+            return "panic"
+        if o[0] == "E":
+            return {"err": int(o[1:])}
+        ents = []
+        for t in [t for t in o[1:].split(";") if t]:
+            sym, iso, cnt = t.split(":")
+            ents.append(["".join(chr(int(x)) for x in sym.split(".") if x), int(iso), int(cnt)])
+        return {"ok": ents}
+    return {"s": s, "outs": [dec(o) for o in parts[1:]]}
+
+
+def decode_eline(line):
+    s, ps, rs = line.split("|")
+
+    def dec(o):
+        if o == "P":
+            return "panic"
+        if o[0] == "E":
+            return {"err": int(o[1:])}
+        sym, iso = o[1:].split(":")
+        return {"ok": ["".join(chr(int(x)) for x in sym.split(".") if x), int(iso)]}
+    return {"s": "".join(chr(int(x)) for x in s.split(",") if x), "parse": [dec(o) for o in ps.split(";")], "reads": [int(x) for x in rs.split(",")]}
+
+
+def extracted_sweep(jobs, sub="formula"):
+    """jobs: list of (shard, length) for `<sub> exhc`.  Returns (lines judged, tie-failing records, holds-failing records,
+    error-kind differences, error text)."""
+    import concurrent.futures as cf
+    hb, drv = harness_bin(), os.path.join(EXTRACT, "c05_driver")
+    decode_line = globals()["decode_line" if sub == "formula" else "decode_eline"]
+
+    def one(job):
+        p = subprocess.run("%s %s exhc %d %d | %s %s" % (hb, sub, job[0], job[1], drv, "" if sub == "formula" else sub), shell=True,
+                           capture_output=True, text=True, timeout=3000)
+        return job, p.returncode, p.stdout, p.stderr
+    total, tie, holds, kind, err = 0, [], [], 0, ""
+    with cf.ThreadPoolExecutor(max_workers=16) as ex:
+        for job, rc, out, e in ex.map(one, jobs):
+            lines = out.splitlines()
+            done = [l for l in lines if l.startswith("DONE ")]
+            if rc != 0 or not done:
+                err = err or "shard %s: rc=%d %s" % (job, rc, e[-500:])
+                continue
+            d = done[0].split()
+            total += int(d[1])
+            kind += int(d[4])
+            tie += [decode_line(l[4:]) for l in lines if l.startswith("TIE ")]
+            holds += [decode_line(l[6:]) for l in lines if l.startswith("HOLDS ")]
+    return total, tie, holds, kind, err
